@@ -13,7 +13,7 @@ open BS.Attrs
 /-- The pattern the code compiles is `\S+`, and the characters it refuses are exactly the regex engine's `\s` class
     for `str` patterns (both generated from the live objects). -/
 theorem pattern_and_class :
-    BS.Gen.nonwhitespacePattern = [92, 83, 43] ∧ BS.Gen.notTokenChars = BS.Gen.reWhitespace := by decide
+    BS.Gen.c17NonwhitespacePattern = [92, 83, 43] ∧ BS.Gen.c17NotTokenChars = BS.Gen.c17ReWhitespace := by decide
 
 /-- every kind of whitespace the property speaks of: the ASCII ones, the C0 separators FS/GS/RS/US, NEL, NBSP and the
     Unicode spaces split; ZERO WIDTH SPACE, MONGOLIAN VOWEL SEPARATOR, BOM, NUL and ordinary characters do not -/
@@ -95,14 +95,14 @@ theorem default_table_documented :
            ("A", "rel"), ("LINK", "rev"), ("TD", "headers"), ("Th", "headers"), ("FORM", "accept-charset"),
            ("linK", "rel"),   -- KELVIN SIGN lower-cases to `k`
            ("p", "class"), ("td", "class"), ("x-y", "accesskey"), ("DIV", "dropzone")],
-      isMulti BS.Gen.defaultCdataListAttributes pyLower (ofS p.1) (ofS p.2) = true := by decide +kernel
+      isMulti BS.Gen.c17DefaultCdataListAttributes pyLower (ofS p.1) (ofS p.2) = true := by decide +kernel
 
 /-- `class`, `accesskey` and `dropzone` are multi-valued on *every* element, whatever its name -/
 theorem universal_entries (lower : PStr → PStr) (tag : PStr) :
-    isMulti BS.Gen.defaultCdataListAttributes lower tag (ofS "class") = true ∧
-    isMulti BS.Gen.defaultCdataListAttributes lower tag (ofS "accesskey") = true ∧
-    isMulti BS.Gen.defaultCdataListAttributes lower tag (ofS "dropzone") = true := by
-  have h : BS.Gen.defaultCdataListAttributes.lookup star
+    isMulti BS.Gen.c17DefaultCdataListAttributes lower tag (ofS "class") = true ∧
+    isMulti BS.Gen.c17DefaultCdataListAttributes lower tag (ofS "accesskey") = true ∧
+    isMulti BS.Gen.c17DefaultCdataListAttributes lower tag (ofS "dropzone") = true := by
+  have h : BS.Gen.c17DefaultCdataListAttributes.lookup star
       = some [ofS "accesskey", ofS "class", ofS "dropzone"] := by decide +kernel
   simp only [isMulti, h]
   refine ⟨?_, ?_, ?_⟩ <;> simp <;> decide
@@ -113,21 +113,21 @@ theorem default_table_neighbours :
     ∀ p ∈ [("p", "rel"), ("td", "rel"), ("div", "headers"), ("tr", "headers"), ("a", "headers"), ("a", "id"),
            ("a", "href"), ("p", "style"), ("a", "REL"), ("p", "CLASS"), ("input", "accept-charset"), ("img", "sizes"),
            ("link", "sizes"), ("label", "for"), ("*", "rel"), ("a", "*"), ("", "rel"), ("a", "")],
-      isMulti BS.Gen.defaultCdataListAttributes pyLower (ofS p.1) (ofS p.2) = false := by decide +kernel
+      isMulti BS.Gen.c17DefaultCdataListAttributes pyLower (ofS p.1) (ofS p.2) = false := by decide +kernel
 
 /-- the keys of the default table are their own lower-case form, so the lower-cased lookup can reach each of them -/
 theorem default_table_keys_lowercase :
-    ∀ e ∈ BS.Gen.defaultCdataListAttributes, pyLower e.1 = e.1 := by decide +kernel
+    ∀ e ∈ BS.Gen.c17DefaultCdataListAttributes, pyLower e.1 = e.1 := by decide +kernel
 
 /-- `str.lower()` of the model is the per-code-point lookup in the generated table (sorted, so the early-exit lookup is
     the plain lookup) -/
 theorem lower_is_table_lookup (c : Nat) :
-    lowerCp c = match BS.Gen.lowerMap.lookup c with
+    lowerCp c = match BS.Gen.c17LowerMap.lookup c with
       | some l => l
       | none => [c] := by
-  have h : sortedKeys BS.Gen.lowerMap = true := by decide +kernel
+  have h : sortedKeys BS.Gen.c17LowerMap = true := by decide +kernel
   simp only [lowerCp, lookupSorted_eq_lookup _ c h]
-  cases List.lookup c BS.Gen.lowerMap <;> rfl
+  cases List.lookup c BS.Gen.c17LowerMap <;> rfl
 
 example : pyLower (ofS "TD") = ofS "td" ∧ pyLower [0x212A] = ofS "k" ∧ pyLower [0x130] = [105, 0x307] := by decide +kernel
 
@@ -184,7 +184,7 @@ theorem none_disables (md : Nat) (lower : PStr → PStr) (lc : Nat) (cls : DictC
     replaceCdataList md (some []) lower lc cls tag d = .ok d := by
   simp [replaceCdataList]
 
-example : replaceCdataList 0 (some BS.Gen.defaultCdataListAttributes) pyLower 1 .plain (ofS "TD")
+example : replaceCdataList 0 (some BS.Gen.c17DefaultCdataListAttributes) pyLower 1 .plain (ofS "TD")
     [(ofS "headers", .str (ofS "a  b")), (ofS "id", .str (ofS "a  b")), (ofS "class", .str [])]
     = .ok [(ofS "headers", .list 1 [ofS "a", ofS "b"]), (ofS "id", .str (ofS "a  b")), (ofS "class", .list 1 [])] := by
   decide +kernel
@@ -407,9 +407,9 @@ example : startTagLoop 0 .plain (.callable accumulate) [(ofS "a", some (ofS "1")
     any list class and the `replace` policy, a start tag `<name k1=v1 k2=v2 …>` yields a tag whose dictionary is of that
     class and whose attribute `k` holds: nothing if `k` does not occur; the token list of its last value if `m` covers
     `(name.lower(), k)`; its last value verbatim otherwise — in order of first appearance. -/
-theorem parsed_start_tag (md : Nat) (lower : PStr → PStr) (m : CdataMap) (hm : m ≠ []) (cls : DictClass) (lc : Nat)
+theorem parsed_start_tag (md : Nat) (lower : PStr → PStr) (m : CdataMap) (hm : m ≠ []) (cls : DictClass) (lc : Nat) (x : Bool)
     (name : PStr) (attrs : List (PStr × Option PStr)) :
-    ∃ t, parseStartTag md lower ⟨some m, cls, lc⟩ .replace name attrs = .ok t ∧ t.cls = cls ∧ t.listCls = lc ∧
+    ∃ t, parseStartTag md lower ⟨some m, cls, lc, x⟩ .replace name attrs = .ok t ∧ t.cls = cls ∧ t.listCls = lc ∧
       keys t.items = dedupAcc [] (attrs.map (·.1)) ∧
       ∀ k, dictGet t.items k = (valsOf attrs k).getLast?.map
         (fun s => if isMulti m lower name k then .list lc (splitWs s) else .str s) := by
@@ -423,7 +423,7 @@ theorem parsed_start_tag (md : Nat) (lower : PStr → PStr) (m : CdataMap) (hm :
     | none => simp [hl] at this
     | some s => simp [hl] at this; rw [← this]; trivial
   have htruthy : truthyMap (some m) = true := by cases m <;> simp_all [truthyMap]
-  refine ⟨⟨cls, lc, replaceSpec (some m) lower lc name d⟩, ?_, rfl, rfl, ?_, ?_⟩
+  refine ⟨⟨cls, lc, replaceSpec (some m) lower lc name d, x⟩, ?_, rfl, rfl, ?_, ?_⟩
   · simp only [parseStartTag, h1, Res.bind, tagInit, htruthy, if_true]
     rw [replaceCdataList_strOrList md (some m) lower lc cls name d hnd hstr]
   · rw [(custom_map_exact m lower lc name d).1, h3]
@@ -434,9 +434,9 @@ theorem parsed_start_tag (md : Nat) (lower : PStr → PStr) (m : CdataMap) (hm :
     | some s => cases isMulti m lower name k <;> simp [splitVal]
 
 /-- … and with `multi_valued_attributes=None` every attribute holds its last value verbatim. -/
-theorem parsed_start_tag_none (md : Nat) (lower : PStr → PStr) (cls : DictClass) (lc : Nat) (name : PStr)
+theorem parsed_start_tag_none (md : Nat) (lower : PStr → PStr) (cls : DictClass) (lc : Nat) (x : Bool) (name : PStr)
     (attrs : List (PStr × Option PStr)) :
-    ∃ t, parseStartTag md lower ⟨none, cls, lc⟩ .replace name attrs = .ok t ∧ t.cls = cls ∧
+    ∃ t, parseStartTag md lower ⟨none, cls, lc, x⟩ .replace name attrs = .ok t ∧ t.cls = cls ∧
       keys t.items = dedupAcc [] (attrs.map (·.1)) ∧
       ∀ k, dictGet t.items k = (valsOf attrs k).getLast?.map .str := by
   obtain ⟨d, h1, h2, h3⟩ := dup_policy_replace md cls attrs
@@ -448,13 +448,459 @@ theorem parsed_start_tag_none (md : Nat) (lower : PStr → PStr) (cls : DictClas
     cases hl : (valsOf attrs p.1).getLast? with
     | none => simp [hl] at this
     | some s => simp [hl] at this; rw [← this]; exact Or.inl trivial
-  refine ⟨⟨cls, lc, d⟩, ?_, rfl, h3, h2⟩
+  refine ⟨⟨cls, lc, d, x⟩, ?_, rfl, h3, h2⟩
   simp only [parseStartTag, h1, Res.bind, tagInit, truthyMap, Bool.false_eq_true, if_false]
   rw [copyInto_strOrList md cls d [] (by simpa using hnd) hstr]
   simp
 
-example : parseStartTag 0 pyLower ⟨some BS.Gen.defaultCdataListAttributes, .html, 1⟩ .replace (ofS "a")
+example : parseStartTag 0 pyLower ⟨some BS.Gen.c17DefaultCdataListAttributes, .html, 1, false⟩ .replace (ofS "a")
     [(ofS "rel", some (ofS "x")), (ofS "id", some (ofS "p q")), (ofS "rel", some (ofS " y\tz "))]
-    = .ok ⟨.html, 1, [(ofS "rel", .list 1 [ofS "y", ofS "z"]), (ofS "id", .str (ofS "p q"))]⟩ := by decide +kernel
+    = .ok ⟨.html, 1, [(ofS "rel", .list 1 [ofS "y", ofS "z"]), (ofS "id", .str (ofS "p q"))], false⟩ := by decide +kernel
+
+/-! ## histories: every attribute owns its value
+
+The documented meaning has no sharing between attributes: the state of a session is the list of tags made so far, each
+with its own values. The code refines this only if it never hands the same list object to two attributes (the harness
+checks object identity and replays in-place changes). -/
+
+/-- Changing one attribute's list in place (`tag_i[k].append(…)`, `.remove`, `.clear`, `.sort`, `+=`, …) changes that
+    value by the list operation and **nothing else**: every other attribute of every tag made so far — same document,
+    another document of the same builder, `new_tag` results, copies — keeps its value; names, dictionary classes and key
+    order stay. -/
+theorem mutate_leaves_others_unchanged (md : Nat) (lower : PStr → PStr) (b : BuilderCfg) (st : Hist) (i : Nat)
+    (k : PStr) (op : ListOp) :
+    ∃ st', histStep md lower b st (.mutate i k op) = .ok st' ∧ st'.length = st.length ∧
+      (∀ j k', (j ≠ i ∨ k' ≠ k) → attrAt st' j k' = attrAt st j k') ∧
+      attrAt st' i k = (attrAt st i k).map (mutateValue op) ∧
+      (∀ j : Nat, (st'[j]?).map (fun (p : PStr × TagAttrs) => (p.1, p.2.cls, p.2.listCls, keys p.2.items))
+          = (st[j]?).map (fun (p : PStr × TagAttrs) => (p.1, p.2.cls, p.2.listCls, keys p.2.items))) := by
+  refine ⟨_, rfl, length_modifyAt _ _ _, ?_, ?_, ?_⟩
+  · intro j k' h
+    simp only [attrAt, getElem?_modifyAt]
+    by_cases hj : j = i
+    · subst hj
+      have hk : k' ≠ k := by rcases h with h | h; exact absurd rfl h; exact h
+      cases st[j]? with
+      | none => simp
+      | some p => simp [mutateTag_get_other _ _ _ _ hk]
+    · simp [hj]
+  · simp only [attrAt, getElem?_modifyAt, if_true]
+    cases st[i]? with
+    | none => simp
+    | some p => simp [mutateTag_get_self]
+  · intro j
+    simp only [getElem?_modifyAt]
+    by_cases hj : j = i
+    · subst hj
+      cases st[j]? with
+      | none => simp
+      | some p =>
+        obtain ⟨h1, h2, h3⟩ := mutateTag_cls p.2 k op
+        simp [h1, h2, h3]
+    · simp [hj]
+
+example : histStep 0 pyLower ⟨some BS.Gen.c17DefaultCdataListAttributes, .plain, 1, false⟩
+    [(ofS "p", ⟨.plain, 1, [(ofS "class", .list 1 [ofS "a", ofS "b"])], false⟩),
+     (ofS "p", ⟨.plain, 1, [(ofS "class", .list 1 [ofS "a", ofS "b"])], false⟩)] (.mutate 0 (ofS "class") (.append (ofS "x")))
+    = .ok [(ofS "p", ⟨.plain, 1, [(ofS "class", .list 1 [ofS "a", ofS "b", ofS "x"])], false⟩),
+           (ofS "p", ⟨.plain, 1, [(ofS "class", .list 1 [ofS "a", ofS "b"])], false⟩)] := by decide +kernel
+
+/-- Making another tag — a later start tag (same or later document), `new_tag`, a copy — leaves every tag made before
+    exactly as it was. -/
+theorem creation_leaves_earlier_tags_unchanged (md : Nat) (lower : PStr → PStr) (b : BuilderCfg) (st st' : Hist)
+    (s : Step) (hs : (∃ n a, s = .parse n a) ∨ (∃ n d, s = .newTag n d) ∨ (∃ i, s = .copy i))
+    (h : histStep md lower b st s = .ok st') : ∀ j, j < st.length → st'[j]? = st[j]? := by
+  intro j hj
+  have key : ∀ (r : Res TagAttrs) (n : PStr),
+      (r.bind fun t => Res.ok (st ++ [(n, t)])) = .ok st' → st'[j]? = st[j]? := by
+    intro r n hr
+    cases r with
+    | valueError => simp [Res.bind] at hr
+    | ok t =>
+      simp only [Res.bind, Res.ok.injEq] at hr
+      subst hr
+      exact List.getElem?_append_left hj
+  rcases hs with ⟨n, a, rfl⟩ | ⟨n, d, rfl⟩ | ⟨i, rfl⟩
+  · exact key _ _ h
+  · exact key _ _ h
+  · simp only [histStep] at h
+    cases hi : st[i]? with
+    | none => simp only [hi, Res.ok.injEq] at h; subst h; rfl
+    | some p => simp only [hi] at h; exact key _ _ h
+
+/-- A start tag parsed *after* any history — earlier documents of the same builder, in-place changes to their lists —
+    gets the same attributes as if it were the first thing the builder ever saw: the documented tokens of its own values. -/
+theorem later_parse_independent_of_history (md : Nat) (lower : PStr → PStr) (m : CdataMap) (hm : m ≠ [])
+    (cls : DictClass) (lc : Nat) (x : Bool) (st1 st2 : Hist) (name : PStr) (attrs : List (PStr × Option PStr)) :
+    ∃ t, histStep md lower ⟨some m, cls, lc, x⟩ st1 (.parse name attrs) = .ok (st1 ++ [(name, t)]) ∧
+         histStep md lower ⟨some m, cls, lc, x⟩ st2 (.parse name attrs) = .ok (st2 ++ [(name, t)]) ∧
+         ∀ k, dictGet t.items k = (valsOf attrs k).getLast?.map
+           (fun s => if isMulti m lower name k then .list lc (splitWs s) else .str s) := by
+  obtain ⟨t, h1, _, _, _, h5⟩ := parsed_start_tag md lower m hm cls lc x name attrs
+  exact ⟨t, by simp [histStep, h1, Res.bind], by simp [histStep, h1, Res.bind], h5⟩
+
+/-- the in-place operations are the list operations of Python (`sort` orders by code point, stably for equal strings) -/
+theorem list_ops_examples :
+    applyListOp (.append [120]) [[97], [98]] = [[97], [98], [120]] ∧
+    applyListOp (.remove [97]) [[97], [98], [97]] = [[98], [97]] ∧
+    applyListOp .clear [[97]] = [] ∧
+    applyListOp .sort [[98], [97, 97], [97], [66]] = [[66], [97], [97, 97], [98]] ∧
+    applyListOp (.iadd [[99], [100]]) [[97]] = [[97], [99], [100]] ∧
+    applyListOp .reverse [[97], [98]] = [[98], [97]] ∧
+    applyListOp .pop [[97], [98]] = [[97]] ∧
+    applyListOp (.insert0 [120]) [[97]] = [[120], [97]] := by decide
+
+/-! ## the whole table, not a sample -/
+
+/-- **Every** entry of the generated default table is honoured, for every spelling of the element name that
+    lower-cases to the entry's key, and the `*` entries on every element whatsoever. -/
+theorem default_table_every_entry_honoured (lower : PStr → PStr) (tag a : PStr) (e : PStr × List PStr)
+    (he : e ∈ BS.Gen.c17DefaultCdataListAttributes) (ha : a ∈ e.2) (hk : e.1 = star ∨ e.1 = lower tag) :
+    isMulti BS.Gen.c17DefaultCdataListAttributes lower tag a = true :=
+  isMulti_of_entry _ lower tag a (by decide +kernel) e he ha hk
+
+/-- … and nothing else is: an attribute is multi-valued only through an entry of the table (any map). -/
+theorem multi_valued_only_through_an_entry (m : CdataMap) (lower : PStr → PStr) (tag a : PStr)
+    (h : isMulti m lower tag a = true) : ∃ e ∈ m, a ∈ e.2 ∧ (e.1 = star ∨ e.1 = lower tag) :=
+  entry_of_isMulti m lower tag a h
+
+example : ∃ e ∈ BS.Gen.c17DefaultCdataListAttributes, ofS "headers" ∈ e.2 ∧ (e.1 = star ∨ e.1 = pyLower (ofS "TH")) :=
+  multi_valued_only_through_an_entry _ pyLower (ofS "TH") (ofS "headers") (by decide +kernel)
+
+/-- the documented (element, attribute) pairs are all entries of the generated table (`*` = every element) -/
+theorem documented_pairs_in_table :
+    ∀ p ∈ [("*", "class"), ("*", "accesskey"), ("*", "dropzone"), ("a", "rel"), ("a", "rev"), ("link", "rel"),
+           ("link", "rev"), ("td", "headers"), ("th", "headers"), ("form", "accept-charset"), ("object", "archive"),
+           ("area", "rel"), ("icon", "sizes"), ("iframe", "sandbox"), ("output", "for")],
+      ∃ e ∈ BS.Gen.c17DefaultCdataListAttributes, e.1 = ofS p.1 ∧ ofS p.2 ∈ e.2 := by decide +kernel
+
+/-- On ASCII names `str.lower` is ASCII lower-casing (checked for all 128 code points against the generated table), so
+    for every ASCII spelling of an element name the lookup is the one for its lower-case form. -/
+theorem ascii_names_case_insensitive (m : CdataMap) (tag a : PStr) (h : ∀ c ∈ tag, c < 128) :
+    isMulti m pyLower tag a = isMulti m pyLower (asciiLower tag) a := by
+  apply multi_valued_case_insensitive
+  rw [pyLower_ascii tag h, pyLower_ascii (asciiLower tag)]
+  · simp only [asciiLower, List.map_map]
+    apply List.map_congr_left
+    intro c _
+    simp only [Function.comp]
+    by_cases h1 : 65 ≤ c ∧ c ≤ 90
+    · have e1 : asciiLowerCp c = c + 32 := if_pos h1
+      rw [e1]; exact (if_neg (by omega)).symm
+    · have e1 : asciiLowerCp c = c := if_neg h1
+      rw [e1, e1]
+  · intro c hc
+    simp only [asciiLower, List.mem_map] at hc
+    obtain ⟨x, hx, rfl⟩ := hc
+    have := h x hx
+    simp only [asciiLowerCp]; split <;> omega
+
+example : isMulti BS.Gen.c17DefaultCdataListAttributes pyLower (ofS "TaBlE") (ofS "class") = true := by decide +kernel
+
+/-- No attribute name of the default table contains a colon, so a prefixed attribute (`svg:class`, `xlink:href`,
+    `xml:lang`, any `NamespacedAttribute` with prefix and name) is never split under the default table — on any
+    element; a `NamespacedAttribute` without prefix is its bare name and is treated like the plain key. -/
+theorem prefixed_attributes_never_split (lower : PStr → PStr) (tag p n : PStr) (hp : p ≠ []) (hn : n ≠ []) :
+    (mkNs (some p) (some n)).str = p ++ 58 :: n ∧
+    isMulti BS.Gen.c17DefaultCdataListAttributes lower tag (mkNs (some p) (some n)).str = false ∧
+    (mkNs none (some n)).str = n ∧ (mkNs (some []) (some n)).str = n := by
+  have hstr : (mkNs (some p) (some n)).str = p ++ 58 :: n := by
+    cases p with
+    | nil => exact absurd rfl hp
+    | cons a as => cases n with
+      | nil => exact absurd rfl hn
+      | cons b bs => simp [mkNs, Key.str]
+  have hnocolon : ∀ e ∈ BS.Gen.c17DefaultCdataListAttributes, ∀ a ∈ e.2, a.contains 58 = false := by decide +kernel
+  refine ⟨hstr, ?_, ?_, ?_⟩
+  · rw [hstr]
+    apply isMulti_false_of_not_listed
+    intro e he hm
+    have := hnocolon e he _ hm
+    simp at this
+  · cases n with
+    | nil => exact absurd rfl hn
+    | cons b bs => simp [mkNs, Key.str]
+  · cases n with
+    | nil => exact absurd rfl hn
+    | cons b bs => simp [mkNs, Key.str]
+
+example : isMulti BS.Gen.c17DefaultCdataListAttributes pyLower (ofS "svg:a") (ofS "rel") = false ∧
+    isMulti BS.Gen.c17DefaultCdataListAttributes pyLower (ofS "svg:a") (ofS "class") = true := by decide +kernel
+
+/-- A builder that defines no table of its own (the base `TreeBuilder` default, which XML builders use) splits nothing,
+    in any dictionary class; the generated base table is empty. -/
+theorem base_table_splits_nothing (md : Nat) (lower : PStr → PStr) (lc : Nat) (cls : DictClass) (tag : PStr) (d : Items) :
+    BS.Gen.c17BaseCdataListAttributes = [] ∧
+    replaceCdataList md (some BS.Gen.c17BaseCdataListAttributes) lower lc cls tag d = .ok d :=
+  ⟨by decide, (none_disables md lower lc cls tag d).2⟩
+
+/-! ## duplicate policy × splitting -/
+
+/-- For **any** duplicate policy (callables included): if the policy's loop leaves a dictionary of strings and lists,
+    the tag holds exactly `replaceSpec` of it — the policy decides the surviving value, the table decides the split,
+    and a value the handler already turned into a list is left alone. -/
+theorem parsed_start_tag_any_policy (md : Nat) (lower : PStr → PStr) (m : CdataMap) (hm : m ≠ []) (cls : DictClass)
+    (lc : Nat) (x : Bool) (onDup : OnDup) (name : PStr) (attrs : List (PStr × Option PStr)) (d : Items)
+    (hloop : startTagLoop md cls onDup attrs [] = .ok d) (hnd : (keys d).Nodup) (hd : ∀ p ∈ d, StrOrList p.2) :
+    parseStartTag md lower ⟨some m, cls, lc, x⟩ onDup name attrs
+      = .ok ⟨cls, lc, replaceSpec (some m) lower lc name d, x⟩ := by
+  have htruthy : truthyMap (some m) = true := by cases m <;> simp_all [truthyMap]
+  simp only [parseStartTag, hloop, Res.bind, tagInit, htruthy, if_true]
+  rw [replaceCdataList_strOrList md (some m) lower lc cls name d hnd hd]
+
+/-- `ignore` × splitting: every attribute holds the tokens (if covered) or the text (if not) of its **first** value. -/
+theorem parsed_start_tag_ignore (md : Nat) (lower : PStr → PStr) (m : CdataMap) (hm : m ≠ []) (cls : DictClass)
+    (lc : Nat) (x : Bool) (name : PStr) (attrs : List (PStr × Option PStr)) :
+    ∃ t, parseStartTag md lower ⟨some m, cls, lc, x⟩ .ignore name attrs = .ok t ∧
+      keys t.items = dedupAcc [] (attrs.map (·.1)) ∧
+      ∀ k, dictGet t.items k = (valsOf attrs k).head?.map
+        (fun s => if isMulti m lower name k then .list lc (splitWs s) else .str s) := by
+  obtain ⟨d, h1, h2, h3⟩ := dup_policy_ignore md cls attrs
+  have hnd : (keys d).Nodup := by rw [h3]; exact nodup_dedupAcc [] _ (by simp)
+  have hstr : ∀ p ∈ d, StrOrList p.2 := by
+    intro p hp
+    have := dictGet_of_mem d hnd p hp
+    rw [h2 p.1] at this
+    cases hl : (valsOf attrs p.1).head? with
+    | none => simp [hl] at this
+    | some s => simp [hl] at this; rw [← this]; trivial
+  refine ⟨_, parsed_start_tag_any_policy md lower m hm cls lc x .ignore name attrs d h1 hnd hstr, ?_, ?_⟩
+  · rw [(custom_map_exact m lower lc name d).1, h3]
+  · intro k
+    rw [(custom_map_exact m lower lc name d).2 k, h2 k]
+    cases (valsOf attrs k).head? with
+    | none => rfl
+    | some s => cases isMulti m lower name k <;> simp [splitVal]
+
+/-- the accumulating handler × splitting: an attribute given once is split (if covered) as usual; an attribute given
+    several times holds the plain list of its **raw** values — the raw values are not split again, even when the
+    attribute is multi-valued (so `class="a b" class="c"` is stored as `["a b", "c"]`). -/
+theorem parsed_start_tag_accumulate (md : Nat) (lower : PStr → PStr) (m : CdataMap) (hm : m ≠ []) (cls : DictClass)
+    (lc : Nat) (x : Bool) (name : PStr) (attrs : List (PStr × Option PStr)) :
+    ∃ t, parseStartTag md lower ⟨some m, cls, lc, x⟩ (.callable accumulate) name attrs = .ok t ∧
+      keys t.items = dedupAcc [] (attrs.map (·.1)) ∧
+      ∀ k, dictGet t.items k = match valsOf attrs k with
+        | [] => none
+        | [s] => some (if isMulti m lower name k then .list lc (splitWs s) else .str s)
+        | vs => some (.list 0 vs) := by
+  obtain ⟨d, h1, h2, h3⟩ := dup_policy_callable_accumulate md cls attrs
+  have hnd : (keys d).Nodup := by rw [h3]; exact nodup_dedupAcc [] _ (by simp)
+  have hstr : ∀ p ∈ d, StrOrList p.2 := by
+    intro p hp
+    have := dictGet_of_mem d hnd p hp
+    rw [h2 p.1] at this
+    match hv : valsOf attrs p.1 with
+    | [] => simp [hv] at this
+    | [s] => simp [hv] at this; rw [← this]; trivial
+    | a :: b :: l => simp [hv] at this; rw [← this]; trivial
+  refine ⟨_, parsed_start_tag_any_policy md lower m hm cls lc x _ name attrs d h1 hnd hstr, ?_, ?_⟩
+  · rw [(custom_map_exact m lower lc name d).1, h3]
+  · intro k
+    rw [(custom_map_exact m lower lc name d).2 k, h2 k]
+    match valsOf attrs k with
+    | [] => rfl
+    | [s] => cases isMulti m lower name k <;> simp [splitVal]
+    | a :: b :: l => cases isMulti m lower name k <;> simp [splitVal]
+
+example : parseStartTag 0 pyLower ⟨some BS.Gen.c17DefaultCdataListAttributes, .plain, 1, false⟩ (.callable accumulate)
+    (ofS "p") [(ofS "class", some (ofS "a b")), (ofS "id", some (ofS "x y")), (ofS "class", some (ofS "c"))]
+    = .ok ⟨.plain, 1, [(ofS "class", .list 0 [ofS "a b", ofS "c"]), (ofS "id", .str (ofS "x y"))], false⟩ := by
+  decide +kernel
+
+/-! ## written back -/
+
+/-- For **every** list of strings (tokens or not): joining by single spaces and splitting again gives the tokens of the
+    elements, in order. For a list of tokens that is the list itself (`split_join_tokens`); for the accumulated raw values
+    above it is the flattened token list. -/
+theorem written_back_and_reread (l : List PStr) : splitWs (joinSp l) = l.flatMap splitWs :=
+  splitWs_joinSp_flat l
+
+example : splitWs (joinSp [ofS "a b", [], ofS " c"]) = [ofS "a", ofS "b", ofS "c"] := by decide +kernel
+
+/-- `Formatter.attributes`: every attribute exactly once (a permutation of the dictionary), in key order, and — only
+    with `empty_attributes_are_booleans` — a value equal to `""` turned into `None`; nothing else is touched. -/
+theorem formatter_attributes_spec (e : Bool) (items : Items) :
+    ((fmtAttributes e items).map (·.1)).Perm (keys items) ∧ SortedAdj (fmtAttributes e items) ∧
+    ∀ p, p ∈ fmtAttributes e items ↔
+      ∃ q ∈ items, p = (q.1, if e && q.2 == PyVal.str [] then PyVal.none else q.2) := by
+  refine ⟨?_, sortItems_sorted _, mem_fmtAttributes e items⟩
+  unfold fmtAttributes
+  have := (sortItems_perm (items.map fun p => (p.1, if e && p.2 == PyVal.str [] then PyVal.none else p.2))).map (·.1)
+  have hk : (items.map fun p => (p.1, if e && p.2 == PyVal.str [] then PyVal.none else p.2)).map (·.1) = keys items := by
+    simp only [keys, List.map_map]; rfl
+  rw [hk] at this
+  exact this
+
+/-- The registered formatters: `empty_attributes_are_booleans` is set for `html5` and `html5-4.12` and for no other
+    (whole generated registry). -/
+theorem registry_empty_attribute_flags :
+    ∀ f ∈ BS.Gen.c17FormatterRegistry,
+      f.2.2 = (f.1 == false && (f.2.1 == ofS "html5" || f.2.1 == ofS "html5-4.12")) := by decide +kernel
+
+/-- One attribute, for every value: `None` → the bare key; a list → `key="…"` with the elements joined by single
+    spaces; a string → itself; `True`/`False` → `True`/`False`; numbers → their `str`; then entity substitution and
+    quoting. An empty string is a bare key exactly under `empty_attributes_are_booleans`. -/
+theorem format_attribute_spec (md : Nat) (f : FmtCfg) (k : PStr) :
+    formatAttr md f (k, .none) = .ok k ∧
+    (∀ c l, formatAttr md f (k, .list c l) = .ok (k ++ 61 :: quotedAttributeValue (f.subst (joinSp l)))) ∧
+    (∀ s, formatAttr md f (k, .str s) = .ok (k ++ 61 :: quotedAttributeValue (f.subst s))) ∧
+    (∀ t z, formatAttr md f (k, .float t z) = .ok (k ++ 61 :: quotedAttributeValue (f.subst t))) ∧
+    (∀ b, formatAttr md f (k, .bool b) = .ok (k ++ 61 :: quotedAttributeValue (f.subst (if b then trueStr else falseStr)))) ∧
+    (∀ i, ¬ tooBig md (.int i) → formatAttr md f (k, .int i) = .ok (k ++ 61 :: quotedAttributeValue (f.subst (intStr i)))) ∧
+    (∀ i, tooBig md (.int i) → formatAttr md f (k, .int i) = .valueError) ∧
+    fmtAttributes true [(k, .str [])] = [(k, .none)] ∧ fmtAttributes false [(k, .str [])] = [(k, .str [])] := by
+  refine ⟨rfl, fun _ _ => rfl, fun _ => rfl, fun _ _ => rfl, fun _ => rfl, ?_, ?_, ?_, ?_⟩
+  · intro i h
+    simp only [tooBig] at h
+    simp [formatAttr, renderVal, pyStrInt, h]
+  · intro i h
+    simp only [tooBig] at h
+    simp [formatAttr, renderVal, pyStrInt, h]
+  · simp [fmtAttributes, sortItems, insertItem]
+  · simp [fmtAttributes, sortItems, insertItem]
+
+/-- the quoting never lets the value end the attribute early: the result is the body between two equal quote
+    characters, and that quote character does not occur in the body -/
+theorem quoting_delimits (v : PStr) :
+    ∃ q body, (q = 34 ∨ q = 39) ∧ quotedAttributeValue v = q :: body ++ [q] ∧ q ∉ body := quoted_delimits v
+
+example : quotedAttributeValue (ofS "a\"b'c") = ofS "\"a&quot;b'c\"" ∧ quotedAttributeValue (ofS "a\"b") = ofS "'a\"b'" ∧
+    quotedAttributeValue (ofS "it's") = ofS "\"it's\"" := by decide +kernel
+
+/-- the attribute string: nothing for a tag without attributes, otherwise a blank followed by one entry per attribute
+    separated by single blanks -/
+theorem attribute_string_shape (md : Nat) (f : FmtCfg) (items : Items) (out : PStr)
+    (h : attributeString md f items = .ok out) :
+    (items = [] → out = []) ∧
+    (items ≠ [] → ∃ l, l.length = items.length ∧ out = 32 :: joinSp l ∧
+        formatAttrs md f (fmtAttributes f.emptyBool items) = .ok l) := by
+  simp only [attributeString] at h
+  cases hl : formatAttrs md f (fmtAttributes f.emptyBool items) with
+  | valueError => simp [hl, Res.bind] at h
+  | ok l =>
+    simp only [hl, Res.bind, Res.ok.injEq] at h
+    have hlen : l.length = items.length := by
+      rw [length_formatAttrs md f _ l hl]
+      have := ((formatter_attributes_spec f.emptyBool items).1).length_eq
+      simpa [keys] using this
+    constructor
+    · intro he; subst he
+      have : l = [] := by simpa using hlen
+      subst this; simpa using h.symm
+    · intro hne
+      refine ⟨l, hlen, ?_, rfl⟩
+      have : l ≠ [] := by
+        intro hl0; subst hl0
+        simp only [List.length_nil] at hlen
+        exact hne (List.length_eq_zero_iff.mp hlen.symm)
+      cases l with
+      | nil => exact absurd rfl this
+      | cons a as => simpa using h.symm
+
+example : attributeString 0 ⟨true, id, fun _ => []⟩
+    [(ofS "id", .str []), (ofS "class", .list 1 [ofS "a", ofS "b"]), (ofS "checked", .none)]
+    = .ok (ofS " checked class=\"a b\" id") := by decide +kernel
+
+/-! ## reading and deleting -/
+
+/-- `get_attribute_list` always gives a list: the stored list itself for a multi-valued attribute; `[value]` in the
+    tag's list class for a string; an empty list of the tag's list class when the attribute is missing (no default) or
+    holds `None`. -/
+theorem get_attribute_list_spec (t : TagAttrs) (k : PStr) :
+    (dictGet t.items k = none → getAttributeList t k .none = .strs t.listCls []) ∧
+    (dictGet t.items k = some .none → getAttributeList t k .none = .strs t.listCls []) ∧
+    (∀ c l, dictGet t.items k = some (.list c l) → getAttributeList t k .none = .strs c l) ∧
+    (∀ s, dictGet t.items k = some (.str s) → getAttributeList t k .none = .strs t.listCls [s]) ∧
+    (∀ c l, dictGet t.items k = none → getAttributeList t k (.list c l) = .strs c l) := by
+  refine ⟨?_, ?_, ?_, ?_, ?_⟩ <;> intros <;> simp_all [getAttributeList, tagGet]
+
+/-- on a parsed tag (any dictionary class, replace policy): the tokens of the last value for a multi-valued attribute,
+    the one-element list of the last value otherwise, the empty list for an attribute that does not occur -/
+theorem get_attribute_list_parsed (md : Nat) (lower : PStr → PStr) (m : CdataMap) (hm : m ≠ []) (cls : DictClass)
+    (lc : Nat) (x : Bool) (name : PStr) (attrs : List (PStr × Option PStr)) :
+    ∃ t, parseStartTag md lower ⟨some m, cls, lc, x⟩ .replace name attrs = .ok t ∧
+      ∀ k, getAttributeList t k .none = match (valsOf attrs k).getLast? with
+        | none => .strs lc []
+        | some s => if isMulti m lower name k then .strs lc (splitWs s) else .strs lc [s] := by
+  obtain ⟨t, h1, _, h3, _, h5⟩ := parsed_start_tag md lower m hm cls lc x name attrs
+  refine ⟨t, h1, fun k => ?_⟩
+  simp only [getAttributeList, tagGet, h5 k, h3]
+  cases (valsOf attrs k).getLast? with
+  | none => rfl
+  | some s => cases isMulti m lower name k <;> rfl
+
+/-- `del tag[k]`: the attribute is gone, nothing else changes (value or order), deleting a missing attribute or
+    deleting twice is harmless. -/
+theorem del_spec (t : TagAttrs) (k : PStr) :
+    hasAttr (tagDel t k) k = false ∧ (∀ d, tagGet (tagDel t k) k d = d) ∧
+    (∀ k' d, k' ≠ k → tagGet (tagDel t k) k' d = tagGet t k' d ∧ hasAttr (tagDel t k) k' = hasAttr t k') ∧
+    keys (tagDel t k).items = (keys t.items).filter (fun x => !(x == k)) ∧
+    tagDel (tagDel t k) k = tagDel t k ∧ (hasAttr t k = false → tagDel t k = t) := by
+  refine ⟨by simp [hasAttr_tagDel], fun d => tagDel_get_self t k d, ?_, keys_dictDel _ _, ?_, ?_⟩
+  · intro k' d h
+    have : (k' == k) = false := by simpa using h
+    exact ⟨tagDel_get_other t k k' d h, by simp [hasAttr_tagDel, this]⟩
+  · simp [tagDel, dictDel_idem]
+  · intro h
+    have hall : ∀ p ∈ t.items, (!(p.1 == k)) = true := by
+      intro p hp
+      cases hpk : p.1 == k with
+      | false => rfl
+      | true =>
+        have : dictHas t.items k = true := by
+          simp only [dictHas, List.any_eq_true]; exact ⟨p, hp, hpk⟩
+        simp [hasAttr, this] at h
+    have : dictDel t.items k = t.items := List.filter_eq_self.mpr hall
+    cases t; simp_all [tagDel]
+
+/-- in a history, `del tag_i[k]` touches that attribute only -/
+theorem del_leaves_others_unchanged (md : Nat) (lower : PStr → PStr) (b : BuilderCfg) (st : Hist) (i : Nat) (k : PStr) :
+    ∃ st', histStep md lower b st (.del i k) = .ok st' ∧ st'.length = st.length ∧
+      (∀ j k', (j ≠ i ∨ k' ≠ k) → attrAt st' j k' = attrAt st j k') ∧ attrAt st' i k = none := by
+  refine ⟨_, rfl, length_modifyAt _ _ _, ?_, ?_⟩
+  · intro j k' h
+    simp only [attrAt, getElem?_modifyAt]
+    by_cases hj : j = i
+    · subst hj
+      have hk : k' ≠ k := by rcases h with h | h; exact absurd rfl h; exact h
+      cases st[j]? with
+      | none => simp
+      | some p => simp [dictGet_del_other _ _ _ hk]
+    · simp [hj]
+  · simp only [attrAt, getElem?_modifyAt, if_true]
+    cases st[i]? with
+    | none => simp
+    | some p => simp [dictGet_del_self]
+
+/-- A copy (`copy_self`) holds the same kind of dictionary as the original, keeps `is_xml`, uses the default list
+    class, and its values are the original's values assigned through that dictionary class (lists in new lists) —
+    unless the discarded builder-less first pass raised. -/
+theorem copy_keeps_container (md : Nat) (lower : PStr → PStr) (b : BuilderCfg) (st st' : Hist) (i : Nat)
+    (n : PStr) (t : TagAttrs) (hi : st[i]? = some (n, t)) (h : histStep md lower b st (.copy i) = .ok st') :
+    ∃ t', st' = st ++ [(n, t')] ∧ t'.cls = t.cls ∧ t'.listCls = 1 ∧ t'.isXml = t.isXml ∧
+      copyInto md t.cls t.items [] = .ok t'.items := by
+  simp only [histStep, hi, copyTag, tagInit] at h
+  cases h0 : copyInto md (if t.isXml then DictClass.xml else DictClass.html) t.items [] with
+  | valueError => simp [h0, Res.bind] at h
+  | ok d0 =>
+    cases hc : copyInto md t.cls t.items [] with
+    | valueError => simp [h0, hc, Res.bind] at h
+    | ok d' =>
+      simp only [h0, hc, Res.bind, Res.ok.injEq] at h
+      exact ⟨_, h.symm, rfl, rfl, rfl, rfl⟩
+
+/-- … and for a tag as a parser leaves it (distinct keys, strings and lists) the copy's attributes are exactly the
+    original's, whatever the dictionary class. -/
+theorem copy_of_parsed_tag_identical (md : Nat) (lower : PStr → PStr) (n : PStr) (t : TagAttrs)
+    (hnd : (keys t.items).Nodup) (hd : ∀ p ∈ t.items, StrOrList p.2) :
+    copyTag md lower n t = .ok { t with listCls := 1 } := by
+  have h1 : ∀ c, copyInto md c t.items [] = .ok t.items := by
+    intro c
+    have := copyInto_strOrList md c t.items [] (by simpa using hnd) (fun p hp => Or.inl (hd p hp))
+    simpa using this
+  simp [copyTag, tagInit, h1, Res.bind]
+
+example : copyTag 0 pyLower (ofS "p") ⟨.plain, 2, [(ofS "class", .list 2 [ofS "a"]), (ofS "k", .int 0)], false⟩
+    = .ok ⟨.plain, 1, [(ofS "class", .list 2 [ofS "a"]), (ofS "k", .int 0)], false⟩ := by decide +kernel
 
 end BS.Props.C17
